@@ -351,7 +351,7 @@ def run(ctx):
     for i, ops in enumerate(exhaustive_cases(rng, depth)):
         for recv in (("transport", "telnet")[i % 2],):
             traces.append(run_case({"mode": "app", "recv": recv}, delivery_plan(rng, ops)))
-    ctx.exhaustive = True
+    ctx.exhaustive = False   # the class-level space is enumerated completely, byte values and wire splits are sampled
     ctx.extra["exhaustive_class_strings_up_to"] = depth
     ctx.extra["exhaustive_note"] = ("every class string up to that length x every grouping into calls x every write/writeSequence "
                                     "assignment (the two receiver kinds alternate); byte values within a class and wire splits are sampled")
